@@ -188,6 +188,7 @@ func (w *World) apiBlock(n *Node, e *blockEntry) {
 	if !w.apiOn() {
 		return
 	}
+	w.apiPolicy(n)
 	b := e.b
 	var gb types.Block
 	js := w.apiRoundTrip(fmt.Sprintf("block %s (height %d)", short(e.id), e.height), b, &gb, func() bool { return bytes.Equal(fullBlockBytes(gb), fullBlockBytes(b)) && gb.ID() == b.ID() })
@@ -213,5 +214,47 @@ func (w *World) apiBlock(n *Node, e *blockEntry) {
 			w.violate("C20", "corrupted-identifier-accepted", fmt.Sprintf("chain index %q (from %q) parsed without error as %v", mut, txt, ci2))
 		}
 		w.stats.Inc("probe.api.corrupt-chain-index")
+	}
+}
+
+// apiPolicy publishes a tape-drawn spend policy (all leaf kinds, legacy
+// conditions with unusual keys and counts) in string and in JSON form.
+func (w *World) apiPolicy(n *Node) {
+	c := &polCtx{w: w, height: n.tip.Index.Height, median: medianTimestamp(n.tip)}
+	for i := 0; i < 3; i++ {
+		c.keys = append(c.keys, deriveKey("c14-key", uint64(i), 1))
+		c.alien = append(c.alien, deriveKey("c14-alien", uint64(i), 1))
+		c.pre = append(c.pre, [32]byte{byte(i), 1})
+	}
+	p := c.draw(0, true)
+	if w.tape.Chance(1, 2) {
+		p = c.reveal(p, false)
+	}
+	str := p.String()
+	var back types.SpendPolicy
+	var err error
+	if pn := guard(func() { back, err = types.ParseSpendPolicy(str) }); pn != "" {
+		w.violate(w.propAmong("C10", "C20"), "text-unmarshal-panic", fmt.Sprintf("ParseSpendPolicy(%q) panicked: %s", str, pn))
+		return
+	}
+	if err != nil || !bytes.Equal(encAny(back), encAny(p)) {
+		w.violate("C20", "text-roundtrip-differs", fmt.Sprintf("spend policy %s does not parse back from its own string form: %v", str, err))
+		return
+	}
+	var viaJSON types.SpendPolicy
+	w.apiRoundTrip("spend policy "+str, p, &viaJSON, func() bool { return bytes.Equal(encAny(viaJSON), encAny(p)) })
+	w.stats.Inc("probe.api.policy-drawn")
+	// one character lost / altered: must not panic; a parsed result must be a policy again
+	b := []byte(str)
+	if len(b) > 2 {
+		i := w.tape.Choose(len(b))
+		mut := append(append([]byte(nil), b[:i]...), b[i+1:]...)
+		if w.tape.Chance(1, 2) {
+			mut = append([]byte(nil), b...)
+			mut[i] = "(),[]x9 "[w.tape.Choose(8)]
+		}
+		if pn := guard(func() { types.ParseSpendPolicy(string(mut)) }); pn != "" {
+			w.violate(w.propAmong("C10", "C20"), "text-unmarshal-panic", fmt.Sprintf("ParseSpendPolicy(%q) panicked: %s", mut, pn))
+		}
 	}
 }
